@@ -67,8 +67,8 @@ CHECKS['C23'] = dict(
 CHECKS['C07'] = dict(
    engine='kani', category='proof', design_ref='DESIGN.md §9.6 C07',
    technique='contract harnesses (Kani/CBMC, loop-free, all handle values) on the bindings the real Rust generator produces for a resource probe world, against a ledger-keeping mock host attached through the generated native import stand-ins',
-   text='PARTIAL (one probe world, see level_note). For every handle value: the generated Resource<T> item drops an owned handle exactly once with its Rust value and never uses or drops a handle that was given away; generated import glue transfers an owned argument exactly once without dropping it, never drops a borrowed argument or method receiver, and an owned result (function or constructor) is dropped exactly once when its value is dropped; generated export glue hands the user the owned handle (dropped exactly once with its value), transfers the handle of a newly created exported resource without dropping it, reaches the same Rust value through an owned handle and through a borrow, and destroys it exactly once in the destructor export, also after into_inner moved the value out (then the new owner destroys it, not the destructor); a list of one or two owned handles passed to an import transfers every handle and drops none (bounded by the list length).',
-   note='Proof for the generated code of kani/rustgen_res/probe.wit only (the generator is real and rebuilt each run; the world is fixed): not a statement about every world. Not covered: async, handles nested in aggregates, future/stream/error-context handles, host resource tables. Rule R1 (native import stand-ins call the mock host) is the only edit to generated text. 64-bit target: trampolines that take a borrow as core i32 are bypassed (pointer truncation).')
+   text='PARTIAL (one probe world, see level_note). For every handle value: the generated Resource<T> item drops an owned handle exactly once with its Rust value and never uses or drops a handle that was given away; generated import glue transfers an owned argument exactly once without dropping it, never drops a borrowed argument or method receiver, and an owned result (function or constructor) is dropped exactly once when its value is dropped; generated export glue hands the user the owned handle (dropped exactly once with its value), transfers the handle of a newly created exported resource without dropping it, reaches the same Rust value through an owned handle and through a borrow, and destroys it exactly once in the destructor export, also after into_inner moved the value out (then the new owner destroys it, not the destructor); a list of one or two owned handles passed to an import transfers every handle and drops none (bounded by the list length). Nested and cross-direction cases: an owned handle inside a record parameter is transferred once and not dropped; option<own> / result<own, u32> results are dropped exactly once with their value (and nothing is created for none / err); a borrow inside a tuple is passed, not dropped; an own of the imported resource received by an export is dropped exactly once by whoever ends up owning it (also when the user keeps it beyond the call); a borrow of the imported resource lent to an export is released by the bindings exactly once and only after the user function returned; option<own> parameter of an export; a borrow of an exported resource reached through an alias in a second exported interface is typed as its representation and its trampolines perform no handle operation.',
+   note='Proof for the generated code of kani/rustgen_res/probe.wit only (the generator is real and rebuilt each run; the world is fixed): not a statement about every world. Not covered: async, handles nested more than one level deep, future/stream/error-context handles, host resource tables. A lent borrow of an IMPORTED resource is released by the bindings at the end of the export call because the canonical ABI requires it of the callee; "never dropped by the guest" is read as never by the user, never early, never twice. Rule R1 (native import stand-ins call the mock host) is the only edit to generated text. 64-bit target: trampolines that take a borrow as core i32 are bypassed (pointer truncation).')
 
 CHECKS['C22'] = dict(
    engine='kani', category='other', design_ref='DESIGN.md §9.7 C22',
@@ -79,7 +79,7 @@ CHECKS['C22'] = dict(
 CHECKS['C05'] = dict(
    engine='kani', category='other', design_ref='DESIGN.md §9.9 C05/C06',
    technique='contract harnesses (Kani/CBMC) on the bindings the real Rust generator produces for a value probe world, the harness acting as the host at the core-ABI boundary with hand-written Canonical-ABI encodings (flat parameters, joined variant slots, return-area layout)',
-   text='PARTIAL and BOUNDED (level "other"): for ONE probe world, export direction. Every generated export trampoline hands the user function exactly the value the host lowered and stores exactly the value the user returned at its canonical offsets: record, tuple, option, result, flags, enum and the numeric cases of a variant with a joined 64-bit-or-pointer slot over their full domains; a variant { f32, u64, f64 } (f32 in a slot widened to i64) over every bit pattern, through an export and through an import; string, list<u8>, list<u32>, list<tuple>, the variant\'s string case, a record with string and list fields, result<string, u32>, list<string>, list<record { u64, string }> (element size with a byte part and a pointer part) and map<string, u32> (second probe world, generated with --map-type) for bounded lengths.',
+   text='PARTIAL and BOUNDED (level "other"): for ONE probe world, export direction. Every generated export trampoline hands the user function exactly the value the host lowered and stores exactly the value the user returned at its canonical offsets: record, tuple, option, result (with both, only an ok, only an error payload type), flags, enum and the numeric cases of a variant with a joined 64-bit-or-pointer slot over their full domains; a variant { f32, u64, f64 } (f32 in a slot widened to i64) over every bit pattern, through an export and through an import; string, list<u8>, list<u32>, list<tuple>, the variant\'s string case, a record with string and list fields, result<string, u32>, list<string>, list<record { u64, string }> (element size with a byte part and a pointer part) and map<string, u32> (second probe world, generated with --map-type) for bounded lengths.',
    note='BOUNDED: list/string lengths 0..=2 (lists of strings / records: list length fixed per obligation at 0, 1 or 2, element strings <= 1 byte), ASCII only; one probe world; one import (the f32 variant), otherwise export direction; async, resources (C07) not driven. The host side is hand-written in the harness from CanonicalABI.md with the 64-bit target\'s pointer size (the generator emits size_of::<*const u8>() offsets, so wasm32 is the same text with P = 4). std UTF-8 validation is a trusted stub.')
 CHECKS['C06'] = dict(
    engine='kani', category='other', design_ref='DESIGN.md §9.9 C05/C06',
@@ -90,7 +90,7 @@ CHECKS['C06'] = dict(
 CHECKS['C02'] = dict(
    engine='kani', category='other', design_ref='DESIGN.md §9.11 C02',
    technique='contract harnesses (Kani/CBMC) on the call glue the real Rust generator produces for a calling-convention probe world, against a mock host reading/writing the canonical parameter record and return area; plus a comparison of each generated core declaration with the hand-written canonical core signature',
-   text='PARTIAL and BOUNDED (level "other"): the shared call glue as instantiated by the Rust backend for one probe world, synchronous functions. 16 parameters are passed flat and 17 through one pointer to a record with field i at its canonical offset, as import and as export; a scalar result is returned directly and a two-field result through a return pointer / return area at canonical offsets; exactly one core call (import) or one user call (export) is made; the caller-allocated parameter record of an export is freed exactly once with its own size and alignment; the six generated core declarations have exactly the canonical core signatures.',
+   text='PARTIAL and BOUNDED (level "other"): the shared call glue as instantiated by the Rust backend for one probe world, synchronous functions. 16 parameters are passed flat and 17 through one pointer to a record with field i at its canonical offset, as import and as export, for 17 x u32 and for 17 values of mixed sizes (u8, u64, u16, u32, u8, u64, 11 x u32: every field at the next multiple of its own alignment, record size 88, alignment 8); a scalar result is returned directly and a two-field result through a return pointer / return area at canonical offsets; exactly one core call (import) or one user call (export) is made; the caller-allocated parameter record of an export is freed exactly once with its own size and alignment; the generated core declarations (ten) have exactly the canonical core signatures.',
    note='BOUNDED/PARTIAL: one backend (Rust), one probe world, u32 parameters; async ABI variants and the other backends are not covered. Expected core signatures and the mock host are hand-written from CanonicalABI.md.')
 
 CHECKS['C08'] = dict(
@@ -102,7 +102,7 @@ CHECKS['C08'] = dict(
 CHECKS['C10'] = dict(
    engine='cbmc', category='other', design_ref='DESIGN.md §9.14 C10/C11',
    technique='CBMC (wasm32 data model) on the bindings the real C generator produces for a value probe world, the harness acting as the host at the core-ABI boundary with hand-written Canonical-ABI encodings',
-   text='PARTIAL and BOUNDED (level "other"): for ONE probe world, export direction plus one import. Every generated C export wrapper hands the user function exactly the value the host lowered and stores exactly the value the user returned at its canonical offsets (4-byte pointers): record, tuple, option, result, flags, enum and the numeric cases of a variant with a joined slot over their full domains; a variant { f32, u64, f64 } over every bit pattern through an export and through an import (the host lifting the joined i64 slot as the canonical ABI does); string, list<u32>, list<tuple<u8,u32,u8>>, the variant\'s string case, a record with string and list fields, result<string, u32> and list<string> for bounded lengths.',
+   text='PARTIAL and BOUNDED (level "other"): for ONE probe world, export direction plus one import. Every generated C export wrapper hands the user function exactly the value the host lowered and stores exactly the value the user returned at its canonical offsets (4-byte pointers): record, tuple, option, result (with both, only an ok, only an error payload type), flags, enum and the numeric cases of a variant with a joined slot over their full domains, each under three generator configurations (default, --no-sig-flattening, --string-encoding utf16); a variant { f32, u64, f64 } over every bit pattern through an export and through an import (the host lifting the joined i64 slot as the canonical ABI does); string, list<u32>, list<tuple<u8,u32,u8>>, the variant\'s string case, a record with string and list fields, result<string, u32> and list<string> for bounded lengths.',
    note='BOUNDED: list/string lengths 0..=2 (list<string>: <= 1 element of <= 1 byte); one probe world; async and resource values not driven. Minimal hand-written ILP32 libc headers (no 32-bit headers in the sandbox); host side hand-written from CanonicalABI.md.')
 CHECKS['C11'] = dict(
    engine='cbmc', category='other', design_ref='DESIGN.md §9.14 C10/C11',
